@@ -3,7 +3,7 @@
 import struct
 from pyvc_spec import *
 from spec_cfdp import pdu_header_octets, fss, fss_len, tlv, lv, with_crc_trailer
-from spec_cfdp_dir_b import (directive_pdu, finished_params, metadata_params, nak_params, segreq, fss_fits, crc_len,
+from spec_cfdp_dir_b import (directive_pdu, directive_body, finished_params, metadata_params, nak_params, segreq, fss_fits, crc_len,
                              entity_id_tlv, filestore_response, TOWARDS_RECEIVER, TOWARDS_SENDER)
 from cfdp_common import mk_conf, ids_in_range, W
 from spacepackets.exceptions import BytesTooShortError
@@ -14,6 +14,10 @@ from spacepackets.cfdp.conf import PduConfig
 from spacepackets.cfdp.pdu.nak import NakPdu, get_max_seg_reqs_for_max_packet_size_and_pdu_cfg
 from spacepackets.cfdp.pdu.finished import FinishedPdu, FinishedParams
 from spacepackets.cfdp.pdu.metadata import MetadataPdu, MetadataParams
+from spacepackets.cfdp.tlv import CfdpTlv, EntityIdTlv, FileStoreResponseTlv, FlowLabelTlv
+from spacepackets.cfdp.tlv.defs import TlvType, FilestoreActionCode, FilestoreResponseStatusCode
+from spacepackets.cfdp.lv import CfdpLv
+from spec_util import pow256
 
 NAK = "spacepackets.cfdp.pdu.nak:"
 FIN = "spacepackets.cfdp.pdu.finished:"
@@ -21,6 +25,47 @@ MD = "spacepackets.cfdp.pdu.metadata:"
 # the list harnesses split over fewer width pairs (every width occurs); the list-free harnesses cover all 16 pairs
 W2 = Choice(1, 8)
 W2B = Choice(2, 4)
+SEGREQS = ListOf(TupleOf(Int, Int), 2)
+
+LVM = "spacepackets.cfdp.lv:"
+
+
+@summary(LVM + "CfdpLv.pack")
+def lv_pack_summary(self):
+    """fork-free rewriting of CfdpLv.pack for LVs in the state every constructor leaves them in (value_len == len(value)):
+    length octet ++ value - an empty value contributes nothing, so the library's `if value_len > 0` needs no case split.
+    Any other state takes the library's own steps.  Equivalence with the real method: obligation CfdpLv.pack/summary."""
+    if self.value_len == len(self.value):
+        return bytearray(lv(self.value))
+    packet = bytearray()
+    packet.append(self.value_len)
+    if self.value_len > 0:
+        packet.extend(self.value)
+    return packet
+
+
+@obligation(["C06"], "CfdpLv.pack/summary", verifies=[LVM + "CfdpLv.pack"])
+def lv_pack_summary_is_exact(value: Bytes, tamper: Bool, vl: IntRange(0, 255)):
+    """the summary used at the call sites of this file returns exactly what the real CfdpLv.pack returns, in every state"""
+    o = outcome(CfdpLv, value)
+    ensures("ctor", iff(o.ok, len(value) <= 255))
+    if o.ok:
+        x = o.value
+        if tamper:
+            x.value_len = vl
+        real = x.pack()
+        summ = lv_pack_summary(x)
+        ensures("same-octets", real == summ)
+        ensures("same-type", kind_of(real) == kind_of(summ))
+
+
+def layout_clauses(raw, crc, body):
+    """raw == body ++ T.  With the CRC flag the clause is split: first everything before the trailer (a lemma for the solver, which
+    otherwise has to prove the equality of two sequences inside crc16(.)), then the whole PDU"""
+    if crc:
+        ensures("layout-body", raw[0:len(raw) - 2] == body)
+    ensures("layout", raw == with_crc_trailer(crc, body))
+
 
 # ------------------------------------------------------------------------------------------------------------------
 # NAK
@@ -43,7 +88,7 @@ def nak_pack_scalar(direction: EnumOf(Direction), mode: EnumOf(TransmissionMode)
     ensures("fitting-accepted", implies(fits, o.ok))
     if o.ok:
         raw = o.value
-        ensures("layout", raw == directive_pdu(TOWARDS_SENDER, mode, crc, large, segctrl, we, ws, src, seq, dst,
+        layout_clauses(raw, crc, directive_body(TOWARDS_SENDER, mode, crc, large, segctrl, we, ws, src, seq, dst,
                                                nak_params(large, start, end, b"")))
         ensures("packet_len", pdu.packet_len == len(raw))
         ensures("data-field-len", pdu.pdu_header.pdu_data_field_len == len(raw) - (4 + 2 * we + ws))
@@ -57,12 +102,10 @@ def nak_pack_scalar(direction: EnumOf(Direction), mode: EnumOf(TransmissionMode)
             verifies=[NAK + "NakPdu.__init__", NAK + "NakPdu.pack", NAK + "NakPdu._calculate_directive_field_len",
                       NAK + "NakPdu.segment_requests"])
 def nak_pack_list(mode: EnumOf(TransmissionMode), crc: EnumOf(CrcFlag), large: EnumOf(LargeFileFlag), we: W2, ws: W2B, src: Int,
-                  seq: Int, dst: Int, start: Int, end: Int, starts: ListOf(Int, 2), ends: ListOf(Int, 2)):
+                  seq: Int, dst: Int, start: Int, end: Int, reqs: SEGREQS):
     """segment requests over all integers: pack is the oracle or fails (never truncates an offset)"""
     requires(ids_in_range(we, ws, src, seq, dst))
-    requires(len(starts) == len(ends))
     conf = mk_conf(we, ws, src, seq, dst, mode, crc, large, Direction.TOWARDS_SENDER, SegmentationControl.NO_RECORD_BOUNDARIES_PRESERVATION)
-    reqs = list(zip(starts, ends))
     pdu = NakPdu(conf, start, end, reqs)
     o = outcome(pdu.pack)
     fits = both(fss_fits(large, start), fss_fits(large, end), all([both(fss_fits(large, a), fss_fits(large, b)) for (a, b) in reqs]))
@@ -73,7 +116,7 @@ def nak_pack_list(mode: EnumOf(TransmissionMode), crc: EnumOf(CrcFlag), large: E
         segs = b""
         for (a, b) in reqs:
             segs = segs + segreq(large, a, b)
-        ensures("layout", raw == directive_pdu(TOWARDS_SENDER, mode, crc, large, 0, we, ws, src, seq, dst,
+        layout_clauses(raw, crc, directive_body(TOWARDS_SENDER, mode, crc, large, 0, we, ws, src, seq, dst,
                                                nak_params(large, start, end, segs)))
         ensures("packet_len", pdu.packet_len == len(raw))
         ensures("data-field-len", pdu.pdu_header.pdu_data_field_len == len(raw) - (4 + 2 * we + ws))
@@ -112,10 +155,8 @@ def nak_roundtrip_scalar(mode: EnumOf(TransmissionMode), crc: EnumOf(CrcFlag), l
 @obligation(["C06", "C09", "C04"], "NakPdu/roundtrip-list", bounded="list length <= 2",
             verifies=[NAK + "NakPdu.unpack", NAK + "NakPdu.__eq__"])
 def nak_roundtrip_list(mode: EnumOf(TransmissionMode), crc: EnumOf(CrcFlag), large: EnumOf(LargeFileFlag), we: W2, ws: W2B, src: Int,
-                       seq: Int, dst: Int, start: Int, end: Int, starts: ListOf(Int, 2), ends: ListOf(Int, 2), suffix: Bytes):
+                       seq: Int, dst: Int, start: Int, end: Int, reqs: SEGREQS, suffix: Bytes):
     requires(ids_in_range(we, ws, src, seq, dst))
-    requires(len(starts) == len(ends))
-    reqs = list(zip(starts, ends))
     requires(both(fss_fits(large, start), fss_fits(large, end), all([both(fss_fits(large, a), fss_fits(large, b)) for (a, b) in reqs])))
     conf = mk_conf(we, ws, src, seq, dst, mode, crc, large, Direction.TOWARDS_SENDER, SegmentationControl.NO_RECORD_BOUNDARIES_PRESERVATION)
     pdu = NakPdu(conf, start, end, reqs)
@@ -137,9 +178,14 @@ def decoded_pdu_facts(g, data):
     return n
 
 
-@obligation(["C06", "C09", "C10", "C04"], "NakPdu.unpack/arbitrary", bounded="declared data-field length admits at most 2 segment requests",
-            verifies=[NAK + "NakPdu.unpack"])
-def nak_unpack_arbitrary(data: Bytes):
+def id_width_code_in(data, c0, c1):
+    """case split of the arbitrary-input harnesses over the entity-ID width code of octet 3 (the four harnesses of a PDU kind
+    together cover all eight codes, i.e. every octet string)"""
+    if len(data) >= 4:
+        requires(either(bits(data[3], 6, 4) == c0, bits(data[3], 6, 4) == c1))
+
+
+def nak_unpack_arbitrary(data):
     if len(data) >= 3:
         requires(data[1] * 256 + data[2] <= 1 + 6 * (4 + 4 * bits(data[0], 0, 0)) + 2 * bits(data[0], 1, 1))
     o = outcome(NakPdu.unpack, data)
@@ -152,29 +198,47 @@ def nak_unpack_arbitrary(data: Bytes):
         ensures("directive-code", data[hl] == 8)
         ensures("scope", both(g.start_of_scope == from_be(data[hl + 1:hl + 1 + f]), g.end_of_scope == from_be(data[hl + 1 + f:hl + 1 + 2 * f])))
         ensures("segment-request-count", (1 + 2 * f + len(g.segment_requests) * 2 * f + 2 * bits(data[0], 1, 1)) == data[1] * 256 + data[2])
-        ensures("no-surplus-folded-in", len(g.segment_requests) * 2 * f <= n - hl - 1 - 2 * f)
+
+
+NAK_ARB = dict(bounded="declared data-field length admits at most 2 segment requests", verifies=[NAK + "NakPdu.unpack"])
+
+
+@obligation(["C06", "C09", "C10", "C04"], "NakPdu.unpack/arbitrary-idw1", **NAK_ARB)
+def nak_unpack_arbitrary_1(data: Bytes):
+    id_width_code_in(data, 0, 2)
+    nak_unpack_arbitrary(data)
+
+
+@obligation(["C06", "C09", "C10", "C04"], "NakPdu.unpack/arbitrary-idw2", **NAK_ARB)
+def nak_unpack_arbitrary_2(data: Bytes):
+    id_width_code_in(data, 1, 4)
+    nak_unpack_arbitrary(data)
+
+
+@obligation(["C06", "C09", "C10", "C04"], "NakPdu.unpack/arbitrary-idw4", **NAK_ARB)
+def nak_unpack_arbitrary_4(data: Bytes):
+    id_width_code_in(data, 3, 5)
+    nak_unpack_arbitrary(data)
+
+
+@obligation(["C06", "C09", "C10", "C04"], "NakPdu.unpack/arbitrary-idw8", **NAK_ARB)
+def nak_unpack_arbitrary_8(data: Bytes):
+    id_width_code_in(data, 7, 6)
+    nak_unpack_arbitrary(data)
 
 
 @obligation(["C11", "C06"], "NakPdu/setters", bounded="list length <= 2",
             verifies=[NAK + "NakPdu.segment_requests", NAK + "NakPdu.file_flag", NAK + "NakPdu._calculate_directive_field_len"])
 def nak_setters(mode: EnumOf(TransmissionMode), crc: EnumOf(CrcFlag), large0: EnumOf(LargeFileFlag), large1: EnumOf(LargeFileFlag),
-                src: Int, seq: Int, dst: Int, start: Int, end: Int, starts0: ListOf(Int, 2), ends0: ListOf(Int, 2),
-                starts1: OptionalOf(ListOf(Int, 2)), ends1: ListOf(Int, 2), flag_first: Bool):
+                src: Int, seq: Int, dst: Int, start: Int, end: Int, reqs0: SEGREQS, reqs1: OptionalOf(SEGREQS), flag_first: Bool):
     """segment_requests and file_flag setters in either order == freshly built PDU with the final values
     (one width pair: the widths play no role in the setters; all pairs are covered by the pack harnesses)"""
     we = 4
     ws = 2
     requires(ids_in_range(we, ws, src, seq, dst))
-    requires(len(starts0) == len(ends0))
-    reqs0 = list(zip(starts0, ends0))
-    if starts1 is None:
-        requires(len(ends1) == 0)
-        reqs1 = None
+    final = reqs1
+    if reqs1 is None:
         final = []
-    else:
-        requires(len(starts1) == len(ends1))
-        reqs1 = list(zip(starts1, ends1))
-        final = reqs1
     conf = mk_conf(we, ws, src, seq, dst, mode, crc, large0, Direction.TOWARDS_SENDER, SegmentationControl.NO_RECORD_BOUNDARIES_PRESERVATION)
     snap = snapshot(conf)
     pdu = NakPdu(conf, start, end, reqs0)
@@ -220,3 +284,117 @@ def nak_max_seg_reqs(mode: EnumOf(TransmissionMode), crc: EnumOf(CrcFlag), large
         pdu = NakPdu(conf, 0, 0)
         ensures("member-forwards", pdu.get_max_seg_reqs_for_max_packet_size(max_size) == n)
         ensures("base-is-empty-pdu", pdu.packet_len == base)
+
+
+# ------------------------------------------------------------------------------------------------------------------
+# Finished
+# ------------------------------------------------------------------------------------------------------------------
+FW = OptionalOf(W)   # width of the fault-location entity ID (None: no fault location)
+FW1 = OptionalOf(Choice(2))
+
+
+def may_carry_fault_location(cc):
+    """727.0-B-5 table 5-7: the fault location is omitted for 'No error' and 'Unsupported checksum type'"""
+    return both(cc != ConditionCode.NO_ERROR, cc != ConditionCode.UNSUPPORTED_CHECKSUM_TYPE)
+
+
+def mk_fault_location(fw, fv):
+    if fw is None:
+        return None
+    requires(both(0 <= fv, fv < pow256(fw)))
+    return EntityIdTlv(be(fw, fv))
+
+
+def fault_location_octets(fw, fv):
+    if fw is None:
+        return b""
+    return entity_id_tlv(fw, fv)
+
+
+@obligation(["C06", "C11", "C04"], "FinishedPdu.pack/scalar",
+            verifies=[FIN + "FinishedPdu.__init__", FIN + "FinishedPdu.pack", FIN + "FinishedPdu._calculate_directive_field_len"])
+def finished_pack_scalar(direction: EnumOf(Direction), mode: EnumOf(TransmissionMode), crc: EnumOf(CrcFlag), large: EnumOf(LargeFileFlag),
+                         segctrl: EnumOf(SegmentationControl), we: W, ws: W, src: Int, seq: Int, dst: Int,
+                         cc: EnumOf(ConditionCode), dc: EnumOf(DeliveryCode), fs: EnumOf(FileStatus), fw: FW, fv: Int):
+    """no filestore responses: every header configuration, every condition / delivery / status code, fault location of every width"""
+    requires(ids_in_range(we, ws, src, seq, dst))
+    requires(cc >= 0)
+    requires(implies(fw is not None, may_carry_fault_location(cc)))
+    conf = mk_conf(we, ws, src, seq, dst, mode, crc, large, direction, segctrl)
+    params = FinishedParams(cc, dc, fs, [], mk_fault_location(fw, fv))
+    snap = snapshot(conf)
+    psnap = snapshot(params)
+    pdu = FinishedPdu(conf, params)
+    raw = pdu.pack()
+    layout_clauses(raw, crc, directive_body(TOWARDS_SENDER, mode, crc, large, segctrl, we, ws, src, seq, dst,
+                                           finished_params(cc, dc, fs, b"", fault_location_octets(fw, fv))))
+    ensures("packet_len", pdu.packet_len == len(raw))
+    ensures("data-field-len", pdu.pdu_header.pdu_data_field_len == len(raw) - (4 + 2 * we + ws))
+    ensures("accessors", both(pdu.condition_code == cc, pdu.delivery_code == dc, pdu.file_status == fs, pdu.file_store_responses == [],
+                              is_same(pdu.fault_location, params.fault_location), pdu.crc_flag == crc, pdu.file_flag == large,
+                              pdu.direction == Direction.TOWARDS_SENDER, pdu.directive_type == 5))
+    ensures("pack-twice", pdu.pack() == raw)
+    ensures("caller-config-untouched", same_state(conf, snap))
+    ensures("caller-params-untouched", same_state(params, psnap))
+
+
+def two_names(action):
+    """727.0-B-5 table 5-16: rename, append and replace carry a second file name"""
+    return either(action == FilestoreActionCode.RENAME_FILE_SNP, action == FilestoreActionCode.APPEND_FILE_SNP,
+                  action == FilestoreActionCode.REPLACE_FILE_SNP)
+
+
+def mk_responses(items):
+    """filestore responses from primitives (action code, 4-bit status, first name, second name, filestore message).  Valid items:
+    a status code of the enumeration, ASCII file names (FileStore*.packet_len counts characters - a TLV-module defect owned
+    elsewhere - so non-ASCII names are kept out), TLV value of at most 255 octets"""
+    out = []
+    for (action, stc, n1, n2, msg) in items:
+        st = outcome(FilestoreResponseStatusCode, action * 16 + stc)
+        requires(st.ok)
+        requires(both(len(n1) == len(n1.encode("utf-8")), len(n2) == len(n2.encode("utf-8"))))
+        requires(4 + len(n1.encode("utf-8")) + len(n2.encode("utf-8")) + len(msg) <= 255)
+        out.append(FileStoreResponseTlv(action, st.value, n1, n2, CfdpLv(msg)))
+    return out
+
+
+def responses_octets(items):
+    r = b""
+    for (action, stc, n1, n2, msg) in items:
+        r = r + filestore_response(action, stc, n1.encode("utf-8"), two_names(action), n2.encode("utf-8"), msg)
+    return r
+
+
+# names / message of at most 80 octets: z3 does not build models with long sequences in reasonable time (4 + 3 * 80 <= 255, so
+# every such item is a valid TLV)
+FS_RESPONSES = ListOf(TupleOf(EnumOf(FilestoreActionCode), IntRange(0, 15), AsciiStrLen(80), AsciiStrLen(80), BytesLen(0, 80)), 2)
+FS_BOUND = "list length <= 2, file names and filestore message <= 80 octets each"
+
+
+@obligation(["C06", "C11", "C04"], "FinishedPdu.pack/list", bounded=FS_BOUND,
+            verifies=[FIN + "FinishedPdu.__init__", FIN + "FinishedPdu.pack", FIN + "FinishedPdu._calculate_directive_field_len",
+                      FIN + "FinishedPdu.file_store_responses_len"])
+def finished_pack_list(mode: EnumOf(TransmissionMode), crc: EnumOf(CrcFlag), large: EnumOf(LargeFileFlag), src: Int,
+                       seq: Int, dst: Int, cc: EnumOf(ConditionCode), dc: EnumOf(DeliveryCode), fs: EnumOf(FileStatus), fw: FW1, fv: Int,
+                       items: FS_RESPONSES):
+    """filestore responses (and a fault location behind them); one width pair and one fault-location width here, all of them in
+    FinishedPdu.pack/scalar"""
+    we = 2
+    ws = 4
+    requires(ids_in_range(we, ws, src, seq, dst))
+    requires(cc >= 0)
+    requires(implies(fw is not None, may_carry_fault_location(cc)))
+    conf = mk_conf(we, ws, src, seq, dst, mode, crc, large, Direction.TOWARDS_RECEIVER, SegmentationControl.NO_RECORD_BOUNDARIES_PRESERVATION)
+    responses = mk_responses(items)
+    params = FinishedParams(cc, dc, fs, responses, mk_fault_location(fw, fv))
+    psnap = snapshot(params)
+    pdu = FinishedPdu(conf, params)
+    raw = pdu.pack()
+    ensures("packet_len", pdu.packet_len == len(raw))
+    ensures("data-field-len", pdu.pdu_header.pdu_data_field_len == len(raw) - (4 + 2 * we + ws))
+    layout_clauses(raw, crc, directive_body(TOWARDS_SENDER, mode, crc, large, 0, we, ws, src, seq, dst,
+                                           finished_params(cc, dc, fs, responses_octets(items),
+                                                           fault_location_octets(fw, fv))))
+    ensures("accessors", both(is_same(pdu.file_store_responses, responses), is_same(pdu.fault_location, params.fault_location)))
+    ensures("pack-twice", pdu.pack() == raw)
+    ensures("caller-params-untouched", same_state(params, psnap, ignore=("tlv",)))
